@@ -113,6 +113,7 @@ def run(ctx):
     wires = [recgen.derive_wire(a) for a in news]
     # batches as a broker may return them, not only as write_new_batch produces them: no records at
     # all (a compacted batch), header fields that are not functions of the records
+    n_logappend = 0
     for i, w in enumerate(list(wires)):
         if i % 6 == 0:
             f = list(w[1]); f[9] = ("A", []); wires.append(("E", f))
@@ -121,6 +122,18 @@ def run(ctx):
             f[3] = ("I", rng.choice([0, 1, 2**31 - 1, -1, rng.randint(0, 10**6)]))
             f[5] = ("I", f[5][1] + rng.choice([0, 1, 1000, 86400000]))
             wires.append(("E", f))
+        elif i % 12 == 9 or i % 6 == 4:
+            # log-append-time topic: the broker sets attribute bit 3 and overwrites the batch's max
+            # timestamp with its own clock, leaving the records' deltas alone — with a producer whose
+            # clock runs ahead, the max timestamp is *smaller* than a record's timestamp
+            # (i % 12 == 9: whole-second batches, for which the write-back comparison is exact)
+            f = list(w[1])
+            top_ms = max([f[4][1]] + [r[1][1][1] for r in f[9][1]])
+            lowered = max(f[5][1] - rng.choice([1, 999, 1000, 3600000]), top_ms // 1000 + 1)
+            if lowered < f[5][1]:
+                f[2] = ("I", f[2][1] | 0x08)
+                f[5] = ("I", lowered)
+                wires.append(("E", f)); n_logappend += 1
         elif i % 6 == 3:
             # (whole-second batches, i % 3 == 0: the write-back comparison below is exact for them)
             # compaction removed the leading record(s): the batch keeps its base offset and base
@@ -309,6 +322,7 @@ def run(ctx):
             fails.append({"what": f"unlisted finding {k}", "bytes": known[0][1].hex()})
     ctx.coverage.update({
         "evaluations": evals, "distinct_nontrivial": len(nontrivial) + len(FIXTURES),
+        "log_append_time_batches": n_logappend,
         "rule": "case = (batch, perturbation); batches = reference encodings by the Lean spec + 4 real-broker "
                 "fixtures; perturbations = identity, 4 wrong magics, every single-bit flip from byte 17, every cut, "
                 "CRC-colliding truncation; non-trivial batch iff ≥1 record with non-null key or value",
